@@ -597,9 +597,9 @@ Hypothesis chunking : forall a b ta tb,
 (* a newline at the very end adds no significant token *)
 Hypothesis final_nl : forall a ta, sigt a = Some ta -> sigt (a ++ [10]) = Some ta.
 Hypothesis sigt_nil : sigt [] = Some [].
-(* the echo of a lexed text has the text's significant tokens (quoted strings may be spelled
-   differently, with the same denotation: this is what C06 states) *)
-Hypothesis echo_tokens : forall ls q, parse_lines ls = Ok q -> sigt (concat (echo q)) = sigt (concat ls).
+(* the echo of a lexed text of the dialect has the text's significant tokens (quoted strings may be
+   spelled differently, with the same denotation: this is what C06 states) *)
+Hypothesis echo_tokens : forall ls q t, parse_lines ls = Ok q -> sigt (concat ls) = Some t -> sigt (concat (echo q)) = Some t.
 Hypothesis file_lines_concat : forall c, concat (file_lines c) = c.
 
 Definition toks (x : bytes) : list T := match sigt x with Some t => t | None => [] end.
@@ -715,15 +715,16 @@ Proof.
   destruct (parse_lines (echo r)) as [r2|e]; [|discriminate]. cbn [bind] in H. injection H as <-.
   exists r, pk. split; [reflexivity|]. intros Hpp Hpr Hend Hpk Hmc.
   destruct (build_structure _ _ _ _ _ Hb) as (m & Hm & He & Hs).
-  pose proof (echo_tokens _ _ Hm) as Em. rewrite file_lines_concat in Em.
+  assert (Em : sigt (concat (echo m)) = Some (toks mc)).
+  { apply (echo_tokens _ _ _ Hm). rewrite file_lines_concat. apply lexes_toks, Hmc. }
   assert (Hmain : forall x tx, sigt x = Some tx ->
             sigt (x ++ (if ends_with_nl (last (echo r) []) then [] else [10])) = Some tx).
   { intros x tx Hx. destruct (ends_with_nl (last (echo r) [])); [rewrite app_nil_r; exact Hx | apply final_nl, Hx]. }
   apply Hmain. destruct pk as [|e0 pk0].
-  - subst r. rewrite Em. apply lexes_toks, Hmc.
-  - rewrite (echo_tokens _ _ Hs). remember (e0 :: pk0) as pk eqn:Epk. clear Epk Hb Hs He.
-    assert (Hz : lexes (concat (echo m))) by (unfold lexes; rewrite Em; exact Hmc).
-    assert (Tz : toks (concat (echo m)) = toks mc) by (unfold toks; rewrite Em; reflexivity).
+  - subst r. exact Em.
+  - apply (echo_tokens _ _ _ Hs). remember (e0 :: pk0) as pk eqn:Epk. clear Epk Hb Hs He.
+    assert (Hz : lexes (concat (echo m))) by (unfold lexes; rewrite Em; discriminate).
+    assert (Tz : toks (concat (echo m)) = toks mc) by (unfold toks at 1; rewrite Em; reflexivity).
     replace (concat (preamble_package ++ flat_map block pk ++ preamble_require ++ echo m))
       with (concat (preamble_package ++ flat_map block_chunks pk ++ preamble_require) ++ concat (echo m)).
     2:{ rewrite !concat_app, <- !app_assoc. f_equal. f_equal.
@@ -752,13 +753,14 @@ Proof.
   intros (rpath & gl & qpath & Hl). exists rpath, gl.
   unfold ReqEmbed.load in Hl. destruct (find rpath (fst e)) as [[path content]|]; [|discriminate].
   destruct (parse_lines (file_lines content)) as [q0|e0] eqn:Hq; [|discriminate]. cbn [bind] in Hl.
-  pose proof (echo_tokens _ _ Hq) as E0. rewrite file_lines_concat in E0.
+  assert (E0 : lexes content -> sigt (concat (echo q0)) = Some (toks content)).
+  { intros Hc. apply (echo_tokens _ _ _ Hq). rewrite file_lines_concat. apply lexes_toks, Hc. }
   exists path, content. destruct gl.
-  - cbn [bind] in Hl. injection Hl as <- <-. split; [reflexivity|]. intros Hc.
-    split; [unfold lexes; rewrite E0; exact Hc | unfold toks; rewrite E0; reflexivity].
+  - cbn [bind] in Hl. injection Hl as <- <-. split; [reflexivity|]. intros Hc. specialize (E0 Hc).
+    split; [unfold lexes; rewrite E0; discriminate | unfold toks at 1; rewrite E0; reflexivity].
   - destruct (strip q0) as [q1|e1] eqn:Hs; [|discriminate]. cbn [bind] in Hl. injection Hl as <- <-.
-    split; [reflexivity|]. intros Hc. pose proof (strip_tokens _ _ Hs) as H. rewrite E0 in H.
-    rewrite (lexes_toks _ Hc) in H. cbn [option_map] in H.
+    split; [reflexivity|]. intros Hc. specialize (E0 Hc). pose proof (strip_tokens _ _ Hs) as H. rewrite E0 in H.
+    cbn [option_map] in H.
     split; [unfold lexes; rewrite H; discriminate | unfold toks at 1; rewrite H; reflexivity].
 Qed.
 
